@@ -1003,6 +1003,7 @@ pub fn handle(st: &mut State, line: &str) -> String {
             "SD" => crate::stream::decode_n(st, &mut t),
             "SE" => crate::stream::encode_1(st, &mut t),
             "SV" => crate::stream::serve(st, &mut t),
+            "SVBIG" => crate::stream::serve_big(st, &mut t),
             "CL" => crate::client::run(st, &mut t),
             "TLS" => crate::net::tls_cell(st, &mut t),
             "TLSPLAIN" => crate::net::tls_plain(st, &mut t),
@@ -1011,6 +1012,7 @@ pub fn handle(st: &mut State, line: &str) -> String {
             "NET" => crate::net::scenario(st, &mut t),
             "NETSLOW" => crate::net::slow_reader(st, &mut t),
             "RECONN" => crate::net::reconn(st, &mut t),
+            "CLRST" => crate::net::client_reset(st, &mut t),
             "TLSDOMAIN" => {
                 // the name connect() would hand to the TLS library for this address (hook verif_tls_domain)
                 let a = t.bytes()?;
